@@ -11,7 +11,7 @@ import math
 import os
 import random
 
-from vh.core import MachineryError, guarded, Raised
+from vh.core import MachineryError, guarded, Raised, other_surroundings
 
 MS_DAY = 86400000
 
@@ -130,7 +130,16 @@ def run(chk, replay=None):
                     text = text.rstrip('\n')          # the last record need not be followed by a line break
                 with open(path, 'w', newline='') as f:
                     f.write(text)
-                cat = guarded(csep.load_catalog, path, type=fmt)
+                # the file is named by a str, by a pathlib.Path, or relative to the working directory of a program that
+                # changed its process-wide settings
+                if rep % 3 == 2:
+                    import pathlib
+                    cat = guarded(csep.load_catalog, pathlib.Path(path), type=fmt)
+                elif rep % 3 == 1 and n % 2:
+                    with other_surroundings(cwd=os.path.dirname(path)):
+                        cat = guarded(csep.load_catalog, os.path.basename(path), type=fmt)
+                else:
+                    cat = guarded(csep.load_catalog, path, type=fmt)
                 chk.count(n)
                 if isinstance(cat, Raised):
                     traces.append({'fmt': fmt, 'n': n, 'loaded': -1, 'recs': [[r['y'], r['mo'], r['d'], r['h'], r['mi'], r['s'], r['ms'], r['off'], 0, 0, 0] for r in recs[:3]]})
